@@ -320,11 +320,13 @@ def run_session(script, env=None, final_timeout=15.0):
     accepted, refused, best = 0, 0, 0
     answers = []
     alive = True
+    quit_now = False
     try:
         for cmd, delay, wait in script:
             if delay:
                 time.sleep(delay / 1000.0)
             if cmd == "quit":
+                quit_now = True      # sent by e.close() below, WITHOUT a stop before it: the process must still exit
                 break
             if not e.send(cmd):
                 problems.append(f"engine gone before `{cmd}`")
@@ -367,7 +369,7 @@ def run_session(script, env=None, final_timeout=15.0):
                     refused += 1
                 else:
                     accepted += 1
-        if alive:
+        if alive and not quit_now:
             # drain: stop any running search and collect remaining bestmoves
             e.send("stop")
             lines = e.sync(final_timeout)
@@ -382,7 +384,9 @@ def run_session(script, env=None, final_timeout=15.0):
         problems.append(f"exit status {rc} on quit")
     if (err or "").strip():
         problems.append("stderr: " + err.strip()[:300])
-    if best != accepted:
+    if best != accepted and not quit_now:
+        problems.append(f"{accepted} go commands accepted but {best} bestmove lines")
+    if quit_now and best > accepted:
         problems.append(f"{accepted} go commands accepted but {best} bestmove lines")
     for cmd, got in answers:
         for l in got:
@@ -441,6 +445,10 @@ ADVERSARIAL = [
      [("position startpos", 0, None), ("go wtime 1000 btime 1000 winc 0 binc 0", 0, "bestmove"), ("position startpos", 0, None),
       ("go wtime 7000 btime 7000 winc 0 binc 0", 0, "bestmove")]),
     ("quit while searching", {}, [("position startpos", 0, None), ("go infinite", 0, None), ("quit", 50, None)]),
+    ("quit during a second, unbounded search", {},
+     [("position startpos", 0, None), ("go depth 1", 0, "bestmove"), ("position startpos moves e2e4", 0, None), ("go", 0, None), ("quit", 80, None)]),
+    ("quit at once after go infinite", {"RUSTYBAIT_VERIF_SEARCH_THREAD_START_MS": 100},
+     [("position startpos", 0, None), ("go infinite", 0, None), ("quit", 0, None)]),
     ("uci, d, unknown words", {}, [("uci", 0, None), ("foo bar", 0, None), ("d", 0, None), ("position startpos", 0, None), ("d", 0, None)]),
 ]
 
